@@ -159,6 +159,20 @@ def _status(path, pickles):
 _REFDIG = {}
 
 
+def _is_partials(piece, msgs):
+    """is `piece` a concatenation of one or more proper prefixes of messages? (several killed appends in a row)"""
+    reach = {0}
+    for p in range(len(piece)):
+        if p not in reach:
+            continue
+        for m in msgs:
+            L = 0
+            while L < len(m) - 1 and p + L < len(piece) and m[L] == piece[p + L]:
+                L += 1
+                reach.add(p + L)
+    return len(piece) in reach
+
+
 def _tokens(path, msgs):
     if not os.path.exists(path):
         return "absent"
@@ -177,7 +191,7 @@ def _tokens(path, msgs):
                 nxt = q
                 break
         piece = b[pos:nxt]
-        out.append("~" if any(m.startswith(piece) and m != piece for m in msgs.values()) else "?")
+        out.append("~" if _is_partials(piece, list(msgs.values())) else "?")
         pos = nxt
     return out
 
@@ -185,7 +199,7 @@ def _tokens(path, msgs):
 def _files(odir, ref):
     return {"last.pkl": _status(os.path.join(odir, "last.pkl"), ref["pickles"]),
             "last.pkl.tmp": _status(os.path.join(odir, "last.pkl.tmp"), ref["pickles"]),
-            "minisanity.txt": _tokens(os.path.join(odir, "minisanity.txt"), ref["msgs"])}
+            "minisanity.txt": _collapse(_tokens(os.path.join(odir, "minisanity.txt"), ref["msgs"]))}
 
 
 def _snap(odir):
@@ -285,6 +299,7 @@ def session(args):
 _WORK = None
 _POOL = None
 _SESS = {}
+EMPTY_SHA = hashlib.sha1(b"").hexdigest()
 _BUDGET = [int(os.environ.get("VERIF_ORACLE_BUDGET", "14"))]
 
 
@@ -442,9 +457,21 @@ def _configs(ctx):
     return cfgs
 
 
+def _collapse(tokens):
+    """adjacent partial messages cannot be told apart in the real file: one '~' for a run of them"""
+    if not isinstance(tokens, list):
+        return tokens
+    out = []
+    for t in tokens:
+        if t == "~" and out and out[-1] == "~":
+            continue
+        out.append(t)
+    return out
+
+
 def _model_files(mf):
     """model statuses: 'partial:i' -> 'partial' (the real bytes cannot tell which iteration a short prefix belongs to)"""
-    return {k: (v.split(":")[0] if isinstance(v, str) and v.startswith("partial") else v) for k, v in mf.items()}
+    return {k: (v.split(":")[0] if isinstance(v, str) and v.startswith("partial") else _collapse(v)) for k, v in mf.items()}
 
 
 def _corpus(ctx):
@@ -504,7 +531,7 @@ def _run_cfg(ctx, cfg):
                     pos[p] = [x["pos"] for x in st]
         scenarios.append(dict(sid=sid, pos=pos))
     # split over a few session processes (each pays the JAX start-up once)
-    nsess = ctx.n(3, 6)
+    nsess = ctx.n(2, 6)
     chunks = [scenarios[i::nsess] for i in range(nsess)]
     mc = {p: mo[p]["coarse"] for p in protos}
     try:
@@ -598,12 +625,17 @@ def _run_cfg(ctx, cfg):
         if any(str(st["status"]).startswith("rc=") for st in rs["stages"] + [rs["final"]]):
             ctx.stat("real-kill:infra-skipped")
             continue
-        a = dict(stages=[dict(status=st["status"], snap=st["snap"], exc=(st["exc"] or {}).get("error")) for st in sc["stages"]],
-                 final=dict(status=sc["final"]["status"], snap=sc["final"]["snap"], res=sc["final"]["res"],
-                            exc=(sc["final"]["exc"] or {}).get("error")))
-        b = dict(stages=[dict(status=st["status"], snap=st["snap"], exc=(st["exc"] or {}).get("error")) for st in rs["stages"]],
-                 final=dict(status=rs["final"]["status"], snap=rs["final"]["snap"], res=rs["final"]["res"],
-                            exc=(rs["final"]["exc"] or {}).get("error")))
+        def view(x):
+            def snapv(sn):   # pickle BYTES depend on the history of the writing process (memoisation): class only
+                return {k: (v if not k.startswith("last.pkl") else ("empty" if v == EMPTY_SHA else "nonempty"))
+                        for k, v in sn.items()}
+            def resv(r):
+                return None if r is None else {k: r.get(k) for k in ("sha", "last_digest", "nit", "updates", "leaves")}
+            return dict(stages=[dict(status=st["status"], snap=snapv(st["snap"]), exc=(st["exc"] or {}).get("error"))
+                                for st in x["stages"]],
+                        final=dict(status=x["final"]["status"], snap=snapv(x["final"]["snap"]), res=resv(x["final"]["res"]),
+                                   exc=(x["final"]["exc"] or {}).get("error")))
+        a, b = view(sc), view(rs)
         ctx.stat("real-kill:checked")
         if not ctx.compare(dict(cfg=cfg, kills=sc["kills"], check="simulated-vs-real-kill"), b, a,
                            note="directory snapshots / outcome: real kill (os._exit) vs simulated kill"):
